@@ -44,7 +44,7 @@ theorem eval_refines_aux (E : Env α) (hS : SqrtLaw E.S)
     refine ⟨by simp [Prog.rows, hr, ar], by simp [Prog.cols, hc, ac], ?_⟩
     intro i j hi hj
     simp only [Prog.rows, Prog.cols] at hi hj
-    rw [add_refines _ _ _ hr0, av i j hi hj, bv i j (by omega) (by omega)]
+    rw [add_refines _ _ _ hr0 i j (by omega), av i j hi hj, bv i j (by omega) (by omega)]
     simp [Spec.eval]
   | sub p q ihp ihq =>
     intro r h
@@ -60,7 +60,7 @@ theorem eval_refines_aux (E : Env α) (hS : SqrtLaw E.S)
     refine ⟨by simp [Prog.rows, hr, ar], by simp [Prog.cols, hc, ac], ?_⟩
     intro i j hi hj
     simp only [Prog.rows, Prog.cols] at hi hj
-    rw [sub_refines _ hS _ _ _ hr0, av i j hi hj, bv i j (by omega) (by omega)]
+    rw [sub_refines _ hS _ _ _ hr0 i j (by omega), av i j hi hj, bv i j (by omega) (by omega)]
     simp [Spec.eval]
   | mulC c p ih =>
     intro r h
@@ -128,7 +128,7 @@ theorem eval_refines_aux (E : Env α) (hS : SqrtLaw E.S)
     refine ⟨by simp [Prog.rows, hr, ar], by simp [Prog.cols, hc, ac], ?_⟩
     intro i j hi hj
     simp only [Prog.rows, Prog.cols] at hi hj
-    rw [addDiagonal_refines _ _ _ hr0, av i j hi hj]
+    rw [addDiagonal_refines _ _ _ hr0 i j (by omega), av i j hi hj]
     simp [Spec.eval]
   | jitter c p ih =>
     intro r h
@@ -140,7 +140,7 @@ theorem eval_refines_aux (E : Env α) (hS : SqrtLaw E.S)
     refine ⟨by simp [Prog.rows, hr, ar], by simp [Prog.cols, hc, ac], ?_⟩
     intro i j hi hj
     simp only [Prog.rows, Prog.cols] at hi hj
-    rw [addJitter_refines _ _ _ hr0, av i j hi hj]
+    rw [addJitter_refines _ _ _ hr0 i j (by omega), av i j hi hj]
     simp [Spec.eval]
   | transpose p ih =>
     intro r h
